@@ -145,7 +145,11 @@ def controls_for(prop):
     if prop == "C01":
         c("marker-filter-weakened", "default", lambda r: replace_str_const(r, V + "unpack_disclosed_claims_in_object", "_sd_alg", "_sd_alx"), "filters:_sd_alg")
         c("member-insert-deleted", "default", lambda r: call_to_goto(r, V + "unpack_from_digests", lambda t: t.get("name") == "insert" and t.get("self_adt") == "serde_json::Map"), "C01.c")
+    if prop == "C01":
+        c("disclosure-template-changed", "default", lambda r: _patch_template(r, "disclosure::SDJWTDisclosure::new", b'", ', b'",  '), "text-format")
+        c("holder-key-assignment-deleted", "default", lambda r: delete_stmts(r, "issuer::SDJWTIssuer::issue_sd_jwt", field_assign("holder_key")), "holder-key")
     if prop == "C02":
+        c("token-from-join", "default", lambda r: rename_call(r, "SDJWTCommon::parse_json_sd_jwt", callee_is("std::fmt::format"), resolved="std::slice::<impl [T]>::join", callee="std::slice::<impl [T]>::join", name="join"), "token-verbatim")
         c("insecure-api-call", "default", lambda r: rename_call(r, V + "verify_sd_jwt", callee_is("jsonwebtoken::decode_header"), resolved="jsonwebtoken::Validation::insecure_disable_signature_validation", callee="jsonwebtoken::Validation::insecure_disable_signature_validation", callee_crate="jsonwebtoken"), "insecure-api")
         c("verify-call-deleted", "default", lambda r: call_to_goto(r, V + "new", callee_is(V + "verify_sd_jwt")), "C02.R1")
         c("payload-not-from-claims", "default", lambda r: delete_stmts(r, V + "verify_sd_jwt", field_assign("sd_jwt_payload")), "C02.R4")
@@ -153,7 +157,10 @@ def controls_for(prop):
         c("dup-check-deleted", "default", lambda r: call_to_goto(r, V + "unpack_from_digest", lambda t: t.get("name") == "push" and t.get("self_ty") == "std::vec::Vec<std::string::String>"), "dup-check")
         c("map-iterated", "default", lambda r: rename_call(r, V + "unpack_from_digests", lambda t: t.get("name") == "get" and (t.get("self_adt") == "std::collections::HashMap"), name="values"), "C03.V2")
         c("key-from-const", "default", lambda r: rename_call(r, "SDJWTCommon::create_hash_mappings", callee_is("utils::base64_hash"), resolved="utils::base64url_encode", callee="utils::base64url_encode"), "C03.V1")
+    if prop == "C03":
+        c("walker-bypassed", "default", lambda r: rename_call(r, V + "unpack_from_digests", callee_is(V + "unpack_disclosed_claims"), resolved="std::result::Result::<T, E>::Ok_x", callee="std::result::Result::<T, E>::Ok_x", resolved_local=False, name="ok_x"), "rewalked")
     if prop == "C04":
+        c("disclosures-pruned-after-parse", "default", lambda r: _graft_mutborrow(r), "presented-state-mutated")
         c("nonce-literal-changed", "default", lambda r: replace_str_const(r, V + "verify_key_binding_jwt", "nonce", "nonc"), "d:nonce")
         c("typ-literal-changed", "default", lambda r: replace_str_const(r, V + "verify_key_binding_jwt", "kb+jwt", "jwt"), "c:typ")
         c("kb-verify-deleted", "default", lambda r: call_to_goto(r, V + "new", callee_is(V + "verify_key_binding_jwt")), "kb decode")
@@ -196,6 +203,53 @@ def controls_for(prop):
         c("pop-back", "mock_salts", lambda r: rename_call(r, "utils::generate_salt_mock", callee_is("pop_front"), name="pop_back"), "fifo")
         c("textual-rewrite", "mock_salts", lambda r: rename_call(r, "disclosure::SDJWTDisclosure::new", callee_is("disclosure::python_style_separators"), name="replace", resolved="std::str::<impl str>::replace", callee="std::str::<impl str>::replace", resolved_local=False, self_ty="str", callee_crate="alloc"), "textual-rewrite")
     return C
+
+
+def _patch_template(raw, fn_name, old, new):
+    """edit the bytes of format_args! templates in fn (keeping the length prefix consistent)"""
+    f = _fn(raw, fn_name)
+    n = 0
+    if f is None:
+        return 0
+
+    def walk(o):
+        nonlocal n
+        if isinstance(o, dict):
+            v = o.get("value")
+            if isinstance(v, dict) and "bytes" in v:
+                b = bytes(v["bytes"])
+                if old in b:
+                    i = b.index(old)
+                    # the literal piece is length-prefixed one byte before its start; find the prefix position
+                    j = i
+                    while j > 0 and not (b[j - 1] < 0x80 and j - 1 + 1 + b[j - 1] >= i + len(old) and b[j - 1] >= len(old)):
+                        j -= 1
+                    nb = bytearray(b[:i] + new + b[i + len(old):])
+                    if j > 0:
+                        nb[j - 1] = nb[j - 1] + (len(new) - len(old))
+                    v["bytes"] = list(nb)
+                    n += 1
+            for x in o.values():
+                walk(x)
+        elif isinstance(o, list):
+            for x in o:
+                walk(x)
+    walk(f["blocks"])
+    return n
+
+
+def _graft_mutborrow(raw):
+    """turn the shared borrow of input_disclosures in the sd_hash recomputation into a &mut borrow (as `retain` would need)"""
+    f = _fn(raw, "verifier::SDJWTVerifier::_get_key_binding_digest_hash")
+    n = 0
+    if f is None:
+        return 0
+    for b in f["blocks"]:
+        for s in b["stmts"]:
+            if s["k"] == "assign" and "ref" in s["rv"] and any(e.get("name") == "input_disclosures" for e in s["rv"]["ref"]["proj"]) and not s["rv"].get("mut"):
+                s["rv"]["mut"] = True
+                n += 1
+    return n
 
 
 def _line_of(raw, fn_name, callee_name, delta):
